@@ -217,6 +217,13 @@ ROUND7 = {
 }
 for _k, _v in ROUND7.items():
     CLAIMED[_k]["text"] += _v
+ROUND8 = {
+ "C02": " A climb towards the root tests the done map and marks it afterwards, so that a detached directory cycle reaches the loop detector (C02.j; genuine defect repaired).",
+ "C09": " The kept zero buffer is remade for another block size (C09.x); inline files are resized in the inline area (C09.y); two genuine defects repaired.",
+ "C15": " Set refuses a value the reader refuses (C15.j); a value inode that could not be filled is taken back (C15.k); two genuine defects repaired.",
+}
+for _k, _v in ROUND8.items():
+    CLAIMED[_k]["text"] += _v
 for _k in CLAIMED:
     CLAIMED[_k]["text"] += " Names of locals, parameters and file-local functions are mapped onto the pinned tree's before any rule runs (renaming all of them is silent)."
 
